@@ -11,3 +11,10 @@ MUTANTS = [
     {'name': 'DUMMY_PS spelling wrong', 'file': 'partitura/utils/globals.py', 'old': '    3: ("d", 1),', 'new': '    3: ("e", 1),', 'expect': 'F3'}]
 
 NEUTRALS = [{'name': 'bound check as chained comparison', 'file': 'partitura/utils/music.py', 'old': '    if fifths < -7:\n        raise Exception("Unknown number of fifths {}".format(fifths))', 'new': '    if not -7 <= fifths <= 7:\n        raise Exception("Unknown number of fifths {}".format(fifths))'}]
+
+# changes made by sub-agents that were given only the property text (see /verif/seeded/<id>/): each must stay reported
+SEEDED = [
+    {'name': 'seeded change C12-r2', 'seed': 'C12-r2', 'expect': '|F7f|'},
+    {'name': 'seeded change C12', 'seed': 'C12', 'expect': '|RET|'},
+]
+MUTANTS += SEEDED
